@@ -152,6 +152,17 @@ fn translate_block(
         // slot, return. We always want to have enough bytes to handle a delay
         // slot.
         if offset >= bytes.len() {
+            // a branch whose delay slot lies beyond the bytes we were given
+            // cannot be translated: its successors would be joined by the
+            // fall-through successor below and its own graph would be lost
+            if matches!(
+                branch_delay,
+                TranslateBranchDelay::DelaySlot(..) | TranslateBranchDelay::DelaySlotFallThrough(..)
+            ) {
+                return Err(Error::Custom(
+                    "block ends before the delay slot of its last branch".to_string(),
+                ));
+            }
             successors.push((address + offset as u64, None));
             break;
         }
